@@ -54,6 +54,11 @@ META = {
         "colour x geometry x chain; Fl+PNG only where the row decoder is within its C03-judged domain: 1-bit only at width 8); "
         "dct: 3 opaque JPEG byte strings x {DeviceGray, DeviceRGB} x chain {DCT, A85+DCT, Fl+DCT}; names: documents whose pages reuse one "
         "image name dup_names times (plus a name that collides with the uniquifier's own suffix, bmp/jpg side by side, the same image painted twice, and dup_names inline images on one page); "
+        "lzw-early: noisy images whose LZW code width grows past 9 bits (40x40 and 64x8 gray, 24x24 RGB, 64x64 1-bit) x /EarlyChange {absent, 1, 0} x "
+        "{LZW alone with a dictionary, A85+LZW with a [null dict] array}; parms: predictor {PNG 15, PNG 12, TIFF 2} x codec {Fl, LZW} x 4 geometries x "
+        "/DecodeParms spelling {dict, [dict], ref, [ref], ref->[dict], ref->[ref], and after an ASCII85 filter [null dict], [null ref], ref->[null ref]}; "
+        "inline-a85-ei: inline images whose /F is a single ASCII85 name or a one-element array and whose ASCII85 text contains EI followed by "
+        "white space {LF, SP, CR LF, TAB} (5 digit groups x 4 payloads), BUFSIZ {4096, 2}; "
         "calls: every sequence of 2 and 3 extract_text_to_fp calls into one output directory over 5 documents that all name an image Im0 "
         "(bmp; other bmp; jpg + bmp; two pages with Im0; other jpg) -- after each call no file of an earlier call has changed and every "
         "distinct image exported so far has a file decoding to it (states = calls made); "
@@ -215,9 +220,9 @@ def image_xobject(colour: str, w: int, h: int, filt: Any, parms: Any, enc: bytes
     return Stream(d, enc)
 
 
-def doc_with_pages(pages: Sequence[Tuple[bytes, Dict[str, Stream]]]) -> bytes:
-    """pages: [(content, {xobject name: Stream})]"""
-    d = Doc()
+def doc_with_pages(pages: Sequence[Tuple[bytes, Dict[str, Stream]]], doc: Optional[Doc] = None) -> bytes:
+    """pages: [(content, {xobject name: Stream})]; doc: a Doc that already holds objects the streams refer to"""
+    d = doc or Doc()
     cat = d.reserve()
     root = d.reserve()
     font = d.add(FONT["F1"])
@@ -411,6 +416,112 @@ def judge_names_doc(pdf: bytes, images: List[Dict[str, Any]]):
     if sorted(decoded) != sorted(want) and not viol:
         viol.append(("C18/export-contents-not-a-bijection", len(want), sorted(files), "exported files do not decode to the set of images"))
     return viol, (tuple(sorted(files)),), ncmp
+
+
+# ---- long LZW data with every /EarlyChange spelling; /DecodeParms spellings with predictors
+def noisy_samples(colour: str, w: int, h: int, salt: int) -> bytes:
+    n = row_bytes(colour, w) * h
+    out = bytearray()
+    x = 12345 + salt * 7919
+    for i in range(n):
+        x = (x * 1103515245 + 12345) & 0x7FFFFFFF
+        # mostly noise, with some runs so that table entries of different lengths are used
+        out.append((x >> 16) & 255 if (i // 7) % 5 else (i // 7) & 255)
+    return bytes(out)
+
+
+LZW_GEOMS = [("G8", 40, 40), ("RGB8", 24, 24), ("G8", 64, 8), ("G1", 64, 64)]
+EARLY = (None, 1, 0)
+
+
+def lzw_early_doc(colour: str, w: int, h: int):
+    images = []
+    xobjs = {}
+    grew = 0
+    for ei, early in enumerate(EARLY):
+        for variant in range(2):
+            samples = noisy_samples(colour, w, h, ei * 2 + variant)
+            e = 1 if early is None else early
+            enc = codecs.lzw_encode(samples, e)
+            if codecs.lzw_encode(samples, 0) != codecs.lzw_encode(samples, 1):
+                grew += 1  # the code width grows inside this payload: the two settings give different bytes
+            filt: Any = N("LZWDecode") if variant == 0 else [N("A85"), N("LZW")]
+            parms: Any = None if early is None else {"EarlyChange": early}
+            if variant == 1:
+                enc = codecs.a85_encode(enc)
+                parms = None if early is None else [None, {"EarlyChange": early}]
+            name = "L%d%d" % (ei, variant)
+            xobjs[name] = image_xobject(colour, w, h, filt, parms, enc)
+            images.append({"name": name, "colour": colour, "w": w, "h": h, "samples": samples, "ext": ".bmp", "chain": "LZW/EarlyChange=%r" % (early,)})
+    pdf = doc_with_pages([(do_ops([im["name"] for im in images]), xobjs)])
+    return pdf, images, grew
+
+
+PARM_SPELLINGS = ("dict", "[dict]", "ref", "[ref]", "ref->[dict]", "ref->[ref]", "A85:[null dict]", "A85:[null ref]", "A85:ref->[null ref]")
+PREDICTORS = ("PNG15", "PNG12", "TIFF2")
+
+
+def parms_doc(colour: str, w: int, h: int, predictor: str, codec: str):
+    """one image per /DecodeParms spelling"""
+    d = Doc()
+    images = []
+    xobjs = {}
+    rb = row_bytes(colour, w)
+    bpp = max(1, NCOMP[colour] * BPC[colour] // 8)
+    for si, spelling in enumerate(PARM_SPELLINGS):
+        samples = make_samples(colour, w, h, "ramp", salt=si + 1)
+        if predictor == "TIFF2":
+            pred = codecs.tiff_predict(samples, rb, bpp)
+            pd: Dict[str, Any] = {"Predictor": 2, "Colors": NCOMP[colour], "BitsPerComponent": 8, "Columns": w}
+        else:
+            pred = codecs.png_predict(samples, rb, bpp, png_rows(colour))
+            pd = {"Predictor": int(predictor[3:]), "Colors": NCOMP[colour], "BitsPerComponent": 8, "Columns": w}
+        enc = codecs.flate_encode(pred) if codec == "Fl" else codecs.lzw_encode(pred)
+        fname = N("FlateDecode" if codec == "Fl" else "LZWDecode")
+        a85 = spelling.startswith("A85:")
+        sp = spelling[4:] if a85 else spelling
+        if a85:
+            enc = codecs.a85_encode(enc)
+            filt: Any = [N("ASCII85Decode"), fname]
+        else:
+            filt = [fname] if "[" in sp else fname
+        lead = [None] if a85 else []
+        parms: Any = {
+            "dict": pd,
+            "[dict]": lead + [pd],
+            "[null dict]": lead + [pd],
+            "ref": None,
+            "[ref]": None,
+            "[null ref]": None,
+            "ref->[dict]": None,
+            "ref->[ref]": None,
+            "ref->[null ref]": None,
+        }[sp]
+        if parms is None:
+            if sp == "ref":
+                parms = d.add(pd)
+            elif sp in ("[ref]", "[null ref]"):
+                parms = lead + [d.add(pd)]
+            elif sp == "ref->[dict]":
+                parms = d.add(lead + [pd])
+            else:
+                parms = d.add(lead + [d.add(pd)])
+        if sp == "ref" and filt is not fname:
+            filt = fname
+        name = "P%d" % si
+        xobjs[name] = image_xobject(colour, w, h, filt, parms, enc)
+        images.append({"name": name, "colour": colour, "w": w, "h": h, "samples": samples, "ext": ".bmp", "chain": f"{codec}+{predictor} DecodeParms {spelling}"})
+    pdf = doc_with_pages([(do_ops([im["name"] for im in images]), xobjs)], doc=d)
+    return pdf, images
+
+
+def a85_with_ei(raw: bytes, ws: bytes) -> Optional[bytes]:
+    """ASCII85 text of `raw` with white space inserted after every 'EI' (white space is ignored by the filter);
+    None if the text has no 'EI'"""
+    text = codecs.a85_encode(raw)[:-2]
+    if b"EI" not in text:
+        return None
+    return text.replace(b"EI", b"EI" + ws) + b"~>"
 
 
 # ---- successive extraction calls into one output directory (one ImageWriter per call)
@@ -669,6 +780,12 @@ def shards(tier):
             for h in b["heights"]:
                 out.append(("xobject", c, w, h))
     out.append(("dct",))
+    for gi in range(len(LZW_GEOMS)):
+        out.append(("lzw-early", gi))
+    for pi in range(len(PREDICTORS)):
+        for codec in ("Fl", "LZW"):
+            out.append(("parms", pi, codec))
+    out.append(("inline-a85-ei",))
     for n in b["dup_names"]:
         out.append(("names", n))
     for first in range(5):
@@ -740,6 +857,59 @@ def run_shard(shard, tier, st):
                     st.case(None, nontrivial=True, outcome=outcome)
                     _record(st, viols, {"family": "xobject", "pdf": pdf, "images": images})
         st.sample({"family": fam, "chain": chain, "jpeg_bytes": len(jpg)})
+    elif fam == "lzw-early":
+        colour, w, h = LZW_GEOMS[shard[1]]
+        pdf, images, grew = lzw_early_doc(colour, w, h)
+        st.add("lzw_payloads_whose_code_width_grows", grew)
+        viols, outcome, ncmp = judge_xobject_doc(pdf, images)
+        st.states += 1
+        st.transitions += ncmp
+        st.traces += len(images)
+        st.case(None, nontrivial=grew > 0, outcome=outcome, n=len(images))
+        _record(st, viols, {"family": "xobject", "pdf": pdf, "images": images})
+        if shard[1] == 0:
+            st.sample({"family": fam, "geometry": (colour, w, h), "early_change": EARLY, "payloads_with_width_growth": grew})
+    elif fam == "parms":
+        predictor, codec = PREDICTORS[shard[1]], shard[2]
+        for colour, w, h in (("G8", 5, 3), ("RGB8", 4, 3), ("G8", 8, 2), ("RGB8", 1, 2)):
+            pdf, images = parms_doc(colour, w, h, predictor, codec)
+            viols, outcome, ncmp = judge_xobject_doc(pdf, images)
+            st.states += 1
+            st.transitions += ncmp
+            st.traces += len(images)
+            st.case(None, nontrivial=True, outcome=outcome, n=len(images))
+            _record(st, viols, {"family": "xobject", "pdf": pdf, "images": images})
+        if shard[1:] == (2, "Fl"):
+            st.sample({"family": fam, "predictor": predictor, "codec": codec, "spellings": PARM_SPELLINGS})
+    elif fam == "inline-a85-ei":
+        rig = InlineRig()
+        ref = rig.run(PRE + b"q 30 0 0 30 50 50 cm\nQ\n" + POST)[1]
+        import base64 as _b64
+
+        seeds = [b"56EI7", b"EI!!!", b"!EI!!", b"!!!EI", b"EIEIE"]
+        n_gen = 0
+        for seed in seeds:
+            group = _b64.a85decode(seed)
+            for raw in (group, b"\x01\x02\x03\x04" + group, group + b"\xfe\xfd", group + group):
+                for ws in (b"\n", b" ", b"\r\n", b"\t"):
+                    text = a85_with_ei(raw, ws)
+                    assert text is not None and (b"EI" + ws) in text
+                    for fspell in (N("A85"), N("ASCII85Decode"), [N("A85")], [N("ASCII85Decode")]):
+                        for before_ei in (b"\n", b""):
+                            prog = inline_program(text, len(raw), 1, "G8", filt=fspell, before_ei=before_ei)
+                            for bs in (4096, 2):
+                                try:
+                                    obs = rig.run(prog, bs)
+                                except Exception as e:  # noqa
+                                    obs = e
+                                viols, outcome = judge_inline(obs, ref, text, len(raw), 1, "G8", decoded=raw, context=":A85-text-containing-EI")
+                                n_gen += 1
+                                st.states += 1
+                                st.transitions += 2
+                                st.traces += 1
+                                st.case(None, nontrivial=True, outcome=outcome)
+                                _record(st, viols, {"family": "inline", "program": prog, "bufsiz": bs, "data": text, "w": len(raw), "h": 1, "colour": "G8", "decoded": raw, "full_doc": False, "context": ":A85-text-containing-EI"})
+        st.sample({"family": fam, "program": prog, "cases": n_gen})
     elif fam == "names":
         n = shard[1]
         for variant in range(5):
